@@ -19,56 +19,76 @@ Proof.
         (conj names_complete_and_exact_mode (proj1 default_mode_documented)))).
 Qed.
 
-(* the generated tables name no variant the model does not know, and no serde name beyond the documented ones
-   except the spelling of the #[default] variant *)
+(* the generated tables name no variant the model does not know, and no serde name beyond the documented ones:
+   the #[default] variant `Unknown` is #[serde(skip_deserializing)] *)
 Theorem C16_tables_closed :
   known cipher_variants ConfigTables.cipher_names_all = true /\ known protocol_variants Tables.protocol_names = true
   /\ known mode_variants Tables.mode_names = true
-  /\ ConfigTables.cipher_names_all = Tables.cipher_names ++ [(ConfigTables.cipher_default_variant, ConfigTables.cipher_default_variant)]
+  /\ ConfigTables.cipher_names_all = Tables.cipher_names
+  /\ ConfigTables.cipher_not_deserializable = [ConfigTables.cipher_default_variant]
   /\ Tables.cipher_unknown_is_nameable = false.
 Proof. exact tables_closed. Qed.
 
-(* ---- every other string is refused (ALL strings) ------------------------------------------------------ *)
+(* ---- every other string is refused (ALL strings, no exception) --------------------------------------- *)
 Theorem C16_unknown_names_rejected :
-  (forall s, ~ In s readme_cipher_names -> s <> "Unknown" -> parse_cipher s = None)
+  (forall s, ~ In s readme_cipher_names -> parse_cipher s = None)
   /\ (forall s, ~ In s readme_protocol_names -> parse_protocol s = None)
   /\ (forall s, ~ In s readme_mode_names -> parse_mode s = None).
 Proof. exact (conj unknown_cipher_rejected (conj unknown_protocol_rejected unknown_mode_rejected)). Qed.
 
 Theorem C16_object_with_unknown_name_rejected : forall c p m,
-  (exists s, c = Some s /\ ~ In s readme_cipher_names /\ s <> "Unknown") \/ ~ In p readme_protocol_names
+  (exists s, c = Some s /\ ~ In s readme_cipher_names) \/ ~ In p readme_protocol_names
   \/ (exists s, m = Some s /\ ~ In s readme_mode_names) ->
   parse_server_config c p m = None.
 Proof. exact object_with_unknown_name_rejected. Qed.
 
 (* ---- no silent fallback ------------------------------------------------------------------------------- *)
-(* a name never yields the kind `Unknown`, except the literal spelling "Unknown" of the variant itself;
-   `Unknown` is what an ABSENT cipher field becomes, and then: *)
+(* NO name yields the kind `Unknown`; it is only what an ABSENT cipher field becomes, and then the shadowsocks server and
+   client stop with an error, and the VMess / Trojan servers do not depend on the cipher at all *)
 Theorem C16_no_silent_fallback :
-  (forall s, In s readme_cipher_names -> parse_cipher s <> Some CUnknown /\ parse_cipher s <> None)
-  /\ (forall s, parse_cipher s = Some CUnknown -> s = "Unknown")
+  (forall s, parse_cipher s <> Some CUnknown)
+  /\ (forall s, In s readme_cipher_names -> parse_cipher s <> None)
   /\ field_cipher None = Some CUnknown
-  /\ (forall m ssl ws quic, startup_server PShadowsocks CUnknown m ssl ws quic = StartupError "unknown cipher kind")
-  /\ (forall m, startup_client PShadowsocks CUnknown m = StartupError "unknown cipher kind")
-  /\ (forall p c m ssl ws quic, p <> PShadowsocks -> startup_server p c m ssl ws quic = Started (listeners_server p m ssl ws quic)).
+  /\ (forall m ssl ws quic, exists msg, startup_server PShadowsocks CUnknown m ssl ws quic = StartupError msg)
+  /\ (forall m, exists msg, startup_client PShadowsocks CUnknown m = StartupError msg)
+  /\ (forall p c c' m ssl ws quic, p <> PShadowsocks -> startup_server p c m ssl ws quic = startup_server p c' m ssl ws quic).
 Proof.
-  exact (conj documented_name_never_unknown (conj unknown_kind_only_by_its_own_name (conj absent_cipher_is_unknown
+  exact (conj no_name_is_unknown (conj (fun s H => proj2 (documented_name_never_unknown s H)) (conj absent_cipher_is_unknown
         (conj unknown_kind_shadowsocks_server (conj unknown_kind_shadowsocks_client cipher_ignored_by_other_servers))))).
 Qed.
-Theorem C16_documented_cipher_starts : forall d c, In d readme_ciphers -> parse_cipher (dc_name d) = Some c ->
-  forall p m ssl ws quic, startup_server p c m ssl ws quic = Started (listeners_server p m ssl ws quic)
-                          /\ exists l, startup_client p c m = Started l.
+(* the Ciphers table: a documented cipher is usable with a protocol exactly when the README ticks it *)
+Theorem C16_documented_cipher_usable : forall d c p, In d readme_ciphers -> parse_cipher (dc_name d) = Some c ->
+  kind_usable p c = readme_cipher_allowed p d.
 Proof. exact documented_cipher_starts. Qed.
-Theorem C16_vmess_cipher_exact : forall d c, In d readme_ciphers -> dc_vmess d = true -> parse_cipher (dc_name d) = Some c ->
-  vmess_client_security "tcp" c = Some (readme_vmess_security d) /\ vmess_client_security "udp" c = Some (readme_vmess_security d).
+(* VMess client: the ticked ciphers select exactly their security, the others are refused wherever the cipher is consulted *)
+Theorem C16_vmess_cipher_exact : forall d c, In d readme_ciphers -> parse_cipher (dc_name d) = Some c ->
+  forall net, In net ["tcp"; "udp"; "context"] ->
+  vmess_client_security net c = if dc_vmess d then VSecurity (readme_vmess_security d) else VRefused.
 Proof. exact vmess_cipher_exact. Qed.
+Theorem C16_vmess_other_kinds_refused : forall c, c <> CAes128Gcm -> c <> CChaCha20Poly1305 ->
+  vmess_client_security "tcp" c = VRefused /\ vmess_client_security "udp" c = VRefused
+  /\ forall m, fst (listeners_client m) = true -> exists msg, startup_client PVMess c m = StartupError msg.
+Proof. exact vmess_other_kinds_refused. Qed.
 
 (* ---- listeners ------------------------------------------------------------------------------------------ *)
+(* every (protocol, kind, mode, ssl?, ws?, quic?): exactly the documented sockets, or -- for a mode that asks for QUIC
+   without a quic section -- a startup error; never "serving while an error went unreported" *)
 Theorem C16_listeners_match_readme :
-  (forall p m ssl ws quic, readme_consistent p m quic = true ->
-     listeners_server p m ssl ws quic = mk (readme_server_listeners p m quic))
-  /\ (forall m l, readme_client_listeners m = Some l -> listeners_client m = l /\ client_keeps_running m = true).
+  (forall p c m ssl ws quic, (p = PShadowsocks -> server_n c <> None) ->
+     meets (startup_server p c m ssl ws quic) (readme_server_startup p m quic))
+  /\ (forall p c m, kind_usable p c = true ->
+     meets (startup_client p c m) (readme_client_startup m)
+     /\ (forall l, readme_client_listeners m = Some l -> listeners_client m = l /\ client_keeps_running m = true)).
 Proof. exact (conj listeners_match_readme_server listeners_match_readme_client). Qed.
+Theorem C16_quic_mode_needs_quic_section : forall c m ssl ws,
+  enable_quic m = true -> exists msg, startup_server PShadowsocks c m ssl ws false = StartupError msg.
+Proof. intros c [] ssl ws H; try discriminate H; eexists; reflexivity. Qed.
+Theorem C16_no_swallowed_startup_error : forall p c m ssl ws quic l msg,
+  startup_server p c m ssl ws quic <> StartedDespiteError l msg.
+Proof. exact no_swallowed_startup_error. Qed.
+Theorem C16_server_mode_refused_by_client : forall p c m, readme_client_listeners m = None ->
+  startup_client p c m = StartupError server_mode_msg /\ client_keeps_running m = false.
+Proof. exact server_mode_refused_by_client. Qed.
 
 (* ---- transports ----------------------------------------------------------------------------------------- *)
 Theorem C16_transport_match_readme :
@@ -137,34 +157,8 @@ Theorem C16_credential_format_exact : forall (P : prims) (b64 : string -> option
     end.
 Proof. exact credential_format_exact. Qed.
 
-(* ---- FINDINGS: what the current source does where the README (or the property) says otherwise ----------- *)
-(* F-16d  the string "Unknown" (the Rust spelling of the #[default] variant) is an accepted cipher name *)
-Example C16_FINDING_unknown_is_a_name : parse_cipher "Unknown" = Some CUnknown /\ ~ In "Unknown" readme_cipher_names.
-Proof. split; [reflexivity|]. cbn. intros H. repeat (destruct H as [H|H]; [discriminate H|]). exact H. Qed.
-(* F-16e  shadowsocks server, mode "quic" / "tcp_and_quic" WITHOUT a `quic` section: no error -- the QUIC endpoint is
-   silently not started; with mode "quic" the server then listens on nothing at all *)
-Example C16_FINDING_quic_mode_without_section_is_silent :
-  readme_consistent PShadowsocks MQuic false = false
-  /\ startup_server PShadowsocks CAes128Gcm MQuic false false false = Started no_listener
-  /\ startup_server PShadowsocks CAes128Gcm MTcpAndQuic false false false = Started {| l_tcp := true; l_udp := false; l_quic := false |}.
-Proof. repeat split. Qed.
-(* F-16f  the client accepts the two server-only mode names; "quic" opens nothing and the process ends at once *)
-Example C16_FINDING_client_accepts_server_modes :
-  ~ In "quic" readme_client_modes /\ parse_mode "quic" = Some MQuic
-  /\ listeners_client MQuic = (false, false) /\ client_keeps_running MQuic = false
-  /\ listeners_client MTcpAndQuic = (true, false).
-Proof. repeat split. cbn. intros H. repeat (destruct H as [H|H]; [discriminate H|]). exact H. Qed.
-(* F-16g  VMess client with a cipher the README does not list for VMess (or with none): not refused, AES-128-GCM is used *)
-Example C16_FINDING_vmess_cipher_fallback :
-  forall d c, In d readme_ciphers -> dc_vmess d = false -> parse_cipher (dc_name d) = Some c ->
-  vmess_client_security "tcp" c = Some "Aes128Gcm" /\ vmess_client_security "udp" c = Some "Aes128Gcm"
-  /\ vmess_client_security "tcp" CUnknown = Some "Aes128Gcm".
-Proof.
-  intros d c Hd Hv Hc. cbn in Hd.
-  repeat (destruct Hd as [<-|Hd]; [try discriminate Hv; vm_compute in Hc; injection Hc as <-; repeat split|]). destruct Hd.
-Qed.
-(* F-16h  a VMess / Trojan server ignores `mode` altogether (documented for the shadowsocks server only): mode "udp" still
-   opens the TCP listener and no UDP socket *)
+(* ---- documentation gap (F-16h, kept): a VMess / Trojan server ignores `mode` altogether (the README documents `mode`
+   for the shadowsocks server only): mode "udp" still opens the TCP listener and no UDP socket ---------------------- *)
 Example C16_FINDING_mode_ignored_by_vmess_trojan :
   forall m ssl ws quic, listeners_server PVMess m ssl ws quic = {| l_tcp := true; l_udp := false; l_quic := quic |}
                      /\ listeners_server PTrojan m ssl ws quic = {| l_tcp := true; l_udp := false; l_quic := quic |}.
@@ -186,7 +180,14 @@ Example C16_example_listeners :
   listeners_server PShadowsocks MTcpAndQuic false false true = {| l_tcp := true; l_udp := false; l_quic := true |}
   /\ listeners_server PShadowsocks MTcpAndUdp true true false = {| l_tcp := true; l_udp := true; l_quic := false |}
   /\ listeners_server PShadowsocks MQuic false false true = {| l_tcp := false; l_udp := false; l_quic := true |}
-  /\ listeners_client MUdp = (false, true) /\ client_keeps_running MUdp = true.
+  /\ listeners_client MUdp = (false, true) /\ client_keeps_running MUdp = true
+  /\ startup_server PShadowsocks C22Aes128Gcm MTcpAndQuic false false true = Started {| l_tcp := true; l_udp := false; l_quic := true |}
+  /\ startup_server PShadowsocks C22Aes128Gcm MTcpAndQuic false false false = StartupError quic_section_msg
+  /\ startup_server PShadowsocks C22Aes128Gcm MQuic true true false = StartupError quic_section_msg
+  /\ startup_client PTrojan CUnknown MQuic = StartupError server_mode_msg
+  /\ startup_client PVMess CAes256Gcm MTcp = StartupError vmess_cipher_msg
+  /\ startup_client PVMess CChaCha20Poly1305 MTcpAndUdp = Started {| l_tcp := true; l_udp := true; l_quic := false |}
+  /\ parse_cipher "Unknown" = None /\ parse_server_config (Some "Unknown") "vmess" None = None.
 Proof. repeat split. Qed.
 Example C16_example_transports :
   transport_client true true false = Some TWss /\ transport_client true true true = Some TQuic
@@ -210,23 +211,42 @@ Example C16_example_legacy_key :
 Proof. split; [exact toy_md5_len|]. split; [reflexivity|]. split; [|reflexivity]. vm_compute. eexists. split; reflexivity. Qed.
 
 Check (C16_unknown_names_rejected :
-  (forall s, ~ In s readme_cipher_names -> s <> "Unknown" -> parse_cipher s = None)
+  (forall s, ~ In s readme_cipher_names -> parse_cipher s = None)
   /\ (forall s, ~ In s readme_protocol_names -> parse_protocol s = None)
   /\ (forall s, ~ In s readme_mode_names -> parse_mode s = None)).
-Check (C16_listeners_match_readme :
-  (forall p m ssl ws quic, readme_consistent p m quic = true -> listeners_server p m ssl ws quic = mk (readme_server_listeners p m quic))
-  /\ (forall m l, readme_client_listeners m = Some l -> listeners_client m = l /\ client_keeps_running m = true)).
-Check (C16_key_length_exact : forall (b64 : string -> option bytes) n pw k ik,
-  config_password_to_keys b64 n pw = Some (k, ik) ->
-  lenN k = n /\ Forall (fun x => lenN x = n) ik /\ forall s, In s (split_on ":"%char pw) -> exists k', b64 s = Some k' /\ lenN k' = n).
+Check @C16_names_complete_and_exact.
+Check @C16_tables_closed.
+Check @C16_unknown_names_rejected.
+Check @C16_object_with_unknown_name_rejected.
+Check @C16_no_silent_fallback.
+Check @C16_documented_cipher_usable.
+Check @C16_vmess_cipher_exact.
+Check @C16_vmess_other_kinds_refused.
+Check @C16_listeners_match_readme.
+Check @C16_quic_mode_needs_quic_section.
+Check @C16_no_swallowed_startup_error.
+Check @C16_server_mode_refused_by_client.
+Check @C16_transport_match_readme.
+Check @C16_key_size_dispatch_agrees.
+Check @C16_legacy_key_same_on_tcp_udp.
+Check @C16_legacy_password_never_refused.
+Check @C16_key_length_exact.
+Check @C16_wrong_key_length_rejected.
+Check @C16_key_2022_exact.
+Check @C16_user_key_exact.
+Check @C16_credential_format_exact.
 Print Assumptions C16_names_complete_and_exact.
 Print Assumptions C16_tables_closed.
 Print Assumptions C16_unknown_names_rejected.
 Print Assumptions C16_object_with_unknown_name_rejected.
 Print Assumptions C16_no_silent_fallback.
-Print Assumptions C16_documented_cipher_starts.
+Print Assumptions C16_documented_cipher_usable.
 Print Assumptions C16_vmess_cipher_exact.
+Print Assumptions C16_vmess_other_kinds_refused.
 Print Assumptions C16_listeners_match_readme.
+Print Assumptions C16_quic_mode_needs_quic_section.
+Print Assumptions C16_no_swallowed_startup_error.
+Print Assumptions C16_server_mode_refused_by_client.
 Print Assumptions C16_transport_match_readme.
 Print Assumptions C16_key_size_dispatch_agrees.
 Print Assumptions C16_legacy_key_same_on_tcp_udp.
